@@ -14,7 +14,8 @@
 //! stdin  (one record per line, fields separated by one space, strings escaped):
 //!   I <id> <text>            define input <id>
 //!   T <tid>                  spawn worker thread <tid>   (thread 0 is the main thread)
-//!   E <seq> <tid> <id>       expand input <id> on thread <tid>; prints an R line
+//!   E <seq> <tid> <id> [t]   expand input <id> on thread <tid>; prints an R line.  `t`: as a *token-built*
+//!                            input (every span is the call site: what another macro would hand over)
 //!   P <tid> <n> <seed>       heap perturbation on thread <tid>: n seeded allocations, some kept
 //!   O <tid> <policy> <seed> [<file>:<line>]  (hooked build) order policy + container seed for later expansions on <tid>, optionally for one iteration site only
 //!   A                        (selftest) print the address of a stack variable and of a fresh heap block
@@ -144,11 +145,30 @@ struct Rendering {
     spans: String,
 }
 
-fn expand_once(src: &str) -> Rendering {
+/// Every token gets `Span::call_site()`: the input as another macro (macro_rules, a
+/// function-like or attribute macro, `quote!`) would hand it over -- tokens that point at no
+/// source text.
+fn strip_locations(ts: TokenStream) -> TokenStream {
+    ts.into_iter()
+        .map(|mut t| {
+            if let TokenTree::Group(g) = &t {
+                let mut ng = proc_macro2::Group::new(g.delimiter(), strip_locations(g.stream()));
+                ng.set_span(proc_macro2::Span::call_site());
+                t = TokenTree::Group(ng);
+            } else {
+                t.set_span(proc_macro2::Span::call_site());
+            }
+            t
+        })
+        .collect()
+}
+
+fn expand_once(src: &str, token_built: bool) -> Rendering {
     let ts: TokenStream = match src.parse() {
         Ok(ts) => ts,
         Err(e) => return Rendering { verdict: "PARSE", text: format!("lex: {}", e), spans: String::new() },
     };
+    let ts = if token_built { strip_locations(ts) } else { ts };
     let input: syn::DeriveInput = match syn::parse2(ts) {
         Ok(i) => i,
         Err(e) => {
@@ -179,11 +199,11 @@ fn expand_once(src: &str) -> Rendering {
     }
 }
 
-fn guarded_expand(src: &str, shim: Shim) -> Rendering {
+fn guarded_expand(src: &str, shim: Shim, token_built: bool) -> Rendering {
     if let Some(m) = shim.mark {
         unsafe { m(1) }
     }
-    let r = std::panic::catch_unwind(|| expand_once(src));
+    let r = std::panic::catch_unwind(|| expand_once(src, token_built));
     if let Some(m) = shim.mark {
         unsafe { m(0) }
     }
@@ -205,7 +225,7 @@ fn guarded_expand(src: &str, shim: Shim) -> Rendering {
 // ---------------------------------------------------------------- events
 
 enum Cmd {
-    Expand { seq: u64, tid: u32, id: u32, src: std::sync::Arc<String> },
+    Expand { seq: u64, tid: u32, id: u32, src: std::sync::Arc<String>, token_built: bool },
     Perturb { n: u32, seed: u64 },
     Order { policy: u8, seed: u64, site: Option<(String, u32)> },
     Quit,
@@ -232,7 +252,7 @@ fn xorshift(x: &mut u64) -> u64 {
 
 fn run_cmd(st: &mut ThreadState, cmd: Cmd) -> Option<String> {
     match cmd {
-        Cmd::Expand { seq, tid, id, src } => {
+        Cmd::Expand { seq, tid, id, src, token_built } => {
             #[cfg(o2o_verif)]
             {
                 let (p, s, site) = st.order.clone().unwrap_or((0, 0, None));
@@ -241,7 +261,7 @@ fn run_cmd(st: &mut ThreadState, cmd: Cmd) -> Option<String> {
                     o2o_impl::verif_seam::set_site_filter(&f, l);
                 }
             }
-            let r = guarded_expand(&src, st.shim);
+            let r = guarded_expand(&src, st.shim, token_built);
             #[allow(unused_mut)]
             let mut line = format!("R {} {} {} {} {} {}\n", seq, tid, id, r.verdict, esc(&r.text), esc(&r.spans));
             #[cfg(o2o_verif)]
@@ -380,7 +400,8 @@ fn main() {
                         std::process::exit(2);
                     },
                 };
-                dispatch(tid, Cmd::Expand { seq, tid, id, src }, &threads, &mut out);
+                let token_built = f.next() == Some("t");
+                dispatch(tid, Cmd::Expand { seq, tid, id, src, token_built }, &threads, &mut out);
             },
             Some("P") => {
                 let tid: u32 = f.next().unwrap().parse().unwrap();
